@@ -97,6 +97,7 @@ def enforce_case(rules, call, target, creds, dflt=None, registered=(), enforce_s
         if enforcer is None and hasattr(e, '_verif_restore'):
             e._verif_restore()
     obs['log'] = [list(x) for x in ev.PROBE_LOG]
+    raw_type = ev.LAST_RAW[0] if ev.LAST_RAW else None
     obs['named'] = 1 if (obs['cls'] == 'PolicyNotAuthorized' and call['by'] == 'name' and
                          obs['msg'] == '%s is disallowed by policy' % call['name']) or \
         (obs['cls'] == 'PolicyNotAuthorized' and call['by'] == 'check') else 0
@@ -128,7 +129,7 @@ def enforce_case(rules, call, target, creds, dflt=None, registered=(), enforce_s
         'obs': obs, 'checklog': checklog,
         '_texts': texts, '_target': repr(target), '_creds': repr(creds), '_call': {k: (v if k != 'tree' else ev.rule_text(v)) for k, v in call.items()},
         '_dflt': repr(dflt) if not (dflt and dflt[0] == 'check') else 'check:' + ev.rule_text(dflt[1]),
-        '_registered': [list(r) for r in reg], '_enforce_scope': enforce_scope, '_via': via,
+        '_registered': [list(r) for r in reg], '_enforce_scope': enforce_scope, '_via': via, '_raw_type': raw_type,
     }
     if extra:
         c.update(extra)
